@@ -257,6 +257,83 @@ fn sem_notified_drop_contended_unfair() {
     sem_notified_drop_contended(false)
 }
 
+/// fair mutex: two lock futures registered in a known order are re-polled by two threads after
+/// the unlock; the order in which they enter the critical section must be the arrival order
+fn mutex_fair_order() {
+    struct Log(loom::cell::UnsafeCell<Vec<u8>>);
+    unsafe impl Send for Log {}
+    let m = Arc::new(GenericMutex::<LoomRaw, Log>::new(Log(loom::cell::UnsafeCell::new(vec![])), true));
+    let _ = m.is_locked();
+    let mr: &'static GenericMutex<LoomRaw, Log> = unsafe { &*(&*m as *const GenericMutex<LoomRaw, Log>) };
+    let g = mr.try_lock().unwrap();
+    let mut f1 = Box::pin(mr.lock());
+    let mut f2 = Box::pin(mr.lock());
+    let (w, _c) = counting_waker();
+    assert!(f1.as_mut().poll(&mut Context::from_waker(&w)).is_pending());
+    assert!(f2.as_mut().poll(&mut Context::from_waker(&w)).is_pending());
+    drop(g);
+    let keep1 = m.clone();
+    let h2 = loom::thread::spawn(move || {
+        // the LATER waiter is polled (possibly first): it may only lock after the earlier one
+        loom::future::block_on(async move {
+            let g = f2.await;
+            g.0.with_mut(|v| unsafe { (*v).push(2) });
+        });
+        let _ = &keep1;
+    });
+    let keep2 = m.clone();
+    let h1 = loom::thread::spawn(move || {
+        loom::future::block_on(async move {
+            let g = f1.await;
+            g.0.with_mut(|v| unsafe { (*v).push(1) });
+        });
+        let _ = &keep2;
+    });
+    h1.join().unwrap();
+    h2.join().unwrap();
+    let g = m.try_lock().expect("C03: mutex not lockable after all tasks finished");
+    let order = g.0.with(|v| unsafe { (*v).clone() });
+    assert_eq!(order, vec![1, 2], "C04: fair mutex granted the lock out of arrival order");
+}
+
+/// fair semaphore: a large request queued first must not be overtaken by a later small one
+fn sem_fair_order() {
+    let s = Arc::new(GenericSemaphore::<LoomRaw>::new(true, 0));
+    let _ = s.permits();
+    let sr: &'static GenericSemaphore<LoomRaw> = unsafe { &*(&*s as *const GenericSemaphore<LoomRaw>) };
+    let order = std::sync::Arc::new(std::sync::Mutex::new(Vec::<u8>::new()));
+    let mut f1 = Box::pin(sr.acquire(2));
+    let mut f2 = Box::pin(sr.acquire(1));
+    let (w, _c) = counting_waker();
+    assert!(f1.as_mut().poll(&mut Context::from_waker(&w)).is_pending());
+    assert!(f2.as_mut().poll(&mut Context::from_waker(&w)).is_pending());
+    let (o1, o2) = (order.clone(), order.clone());
+    let keep1 = s.clone();
+    let h2 = loom::thread::spawn(move || {
+        loom::future::block_on(async move {
+            let mut r = f2.await;
+            // completion order is recorded while the permits are still held
+            o2.lock().unwrap().push(2);
+            r.disarm();
+        });
+        let _ = &keep1;
+    });
+    let keep2 = s.clone();
+    let h1 = loom::thread::spawn(move || {
+        loom::future::block_on(async move {
+            let mut r = f1.await;
+            o1.lock().unwrap().push(1);
+            r.disarm();
+        });
+        let _ = &keep2;
+    });
+    s.release(1);
+    s.release(2);
+    h1.join().unwrap();
+    h2.join().unwrap();
+    assert_eq!(*order.lock().unwrap(), vec![1, 2], "C07: fair semaphore served a later request before an earlier pending one");
+}
+
 fn swap_sem(fair: bool) {
     let s = Arc::new(GenericSemaphore::<LoomRaw>::new(fair, 0));
     let _ = s.permits();
@@ -1215,6 +1292,8 @@ fn timer_abandon() {
 }
 
 const SCENARIOS: &[(&str, &str, Scenario)] = &[
+    ("mutex_fair_order", "C04", mutex_fair_order),
+    ("sem_fair_order", "C07", sem_fair_order),
     ("event_set_vs_reset", "C14", event_set_vs_reset),
     ("mpmc_last_receiver_clears", "hook:C11", mpmc_last_receiver_clears),
     ("mpmc_refill_race", "C09", mpmc_refill_race),
